@@ -38,6 +38,7 @@ var props = map[string]propDef{
 	"C12": {genC12, dec[CaseC12]()},
 	"C16": {genC16, dec[CaseC16]()},
 	"C18": {genC18, dec[CaseC18]()},
+	"REAL": {genReal, dec[CaseReal]()},
 	"C10": {genC10, dec[CaseC10]()},
 	"C17": {genC17, dec[CaseC17]()},
 }
